@@ -185,7 +185,9 @@ static void caseC03(uint64_t idx, vh::Rng& g)
 	try
 	{
 		R->phase("RemoveUnreachableStates");
-		Aut u = A.RemoveUnreachableStates(); RTA ru = readExpl(u, &ca);
+		// half of the calls supply the optional out-parameter (the result must not depend on it)
+		AutBase::StateToStateMap um; bool uo = g.chance(1, 2); if (uo) R->count("out-parameter:unreach-map");
+		Aut u = uo ? A.RemoveUnreachableStates(&um) : A.RemoveUnreachableStates(); RTA ru = readExpl(u, &ca);
 		int c = rm::cmpLang(a, ru, al);
 		if (c > 0) R->violation(C03 + "/unreach/language", "language changed (diff mask " + vh::str(c) + ")");
 		else if (c < 0) R->inconclusive("rm-cap");
@@ -194,7 +196,8 @@ static void caseC03(uint64_t idx, vh::Rng& g)
 		if (readExpl(A, &ca) != a) R->violation(C03 + "/unreach/operand-changed", "");
 
 		R->phase("RemoveUselessStates");
-		Aut v = A.RemoveUselessStates(); RTA rv = readExpl(v, &ca);
+		AutBase::StateToStateMap vm; bool vo = g.chance(1, 2); if (vo) R->count("out-parameter:useless-map");
+		Aut v = vo ? A.RemoveUselessStates(&vm) : A.RemoveUselessStates(); RTA rv = readExpl(v, &ca);
 		c = rm::cmpLang(a, rv, al);
 		if (c > 0) R->violation(C03 + "/useless/language", "language changed (diff mask " + vh::str(c) + ")");
 		std::set<St> uu = rm::useful(rv), prod = rm::productive(rv);
